@@ -589,6 +589,13 @@ def main():
         log(f"KNOWN-FINDING: property={prop} {known_hits[k]['what']}")
     for rp, suffix in violations:
         log(f"VIOLATION property={prop} replay={rp}{suffix}")
+        try:  # one line of detail (what failed, where), so that a log of the run is enough to triage
+            j = json.load(open(rp))
+            f = j.get("failure") or {}
+            det = f"sig={f.get('sig')} case={f.get('case')!r} msg={str(f.get('msg'))[:400]!r}" if f else json.dumps(j.get("no_longer_checks", ""))[:500]
+            log(f"  detail: stream={j.get('stream', j.get('bin'))} {det}")
+        except Exception:
+            pass
     log(f"{prop} {tier}: theorems {n_dis}/{n_obl} clean, {total_eval} operation lines on implementation and model, "
         f"{sum(x['stream_differences'] for x in stream_res)} stream differences, {sum(x['oracle_failures'] for x in stream_res)} oracle failures, "
         f"{len(known_hits)} known findings, {len(violations)} violations, {ev['wall_s']} s")
